@@ -121,7 +121,7 @@ def decode_pdb(text: str) -> Dict[str, list]:
             try:
                 atoms.append({
                     "record": kind, "serial": int(line[6:11]), "name": line[12:16].strip(), "altloc": line[16].strip(),
-                    "resname": line[17:20].strip(), "chain": line[21].strip(), "resseq": int(line[22:26]),
+                    "resname": line[17:20].strip(), "chain": line[21], "resseq": int(line[22:26]),
                     "icode": line[26].strip(), "x": float(line[30:38]), "y": float(line[38:46]), "z": float(line[46:54]),
                     "occ": float(line[54:60]), "bfac": float(line[60:66]), "element": line[76:78].strip(),
                     "charge": decode_pdb_charge(line[78:80]), "model": model,
@@ -331,7 +331,7 @@ def decode_cif_atoms(text: str) -> List[dict]:
 
             ch = g("pdbx_formal_charge")
             # author identity only when chain, number and residue name are all given (else label identity)
-            has_auth = bool(g("auth_asym_id")) and bool(g("auth_seq_id")) and bool(g("auth_comp_id"))
+            has_auth = bool(g("auth_asym_id")) and bool(g("auth_seq_id")) and bool(g("auth_comp_id", "label_comp_id"))
             out.append({
                 "record": g("group_PDB") or "ATOM", "serial": int(g("id") or 0), "name": g("auth_atom_id", "label_atom_id"),
                 "altloc": g("label_alt_id"), "resname": g("auth_comp_id", "label_comp_id"),
